@@ -19,7 +19,11 @@ fn parse_file_context(
     dir_entry: &DirEntry,
 ) -> anyhow::Result<Option<ParseFileContext>> {
     let crate_name = if multi_file {
-        let Some(crate_name) = CrateName::find_crate_name(dir_entry.path()) else {
+        // `typeshare src` run from inside a crate: the relative path has no directory above
+        // `src`, the absolute one names the crate.
+        let absolute_path = std::path::absolute(dir_entry.path())
+            .unwrap_or_else(|_| dir_entry.path().to_path_buf());
+        let Some(crate_name) = CrateName::find_crate_name(&absolute_path) else {
             return Ok(None);
         };
         crate_name
